@@ -306,6 +306,14 @@ def make_case(score, rng, tier):
                                     polyphony=poly)
             if ties_expressible(score, p):
                 break
+        if rng.random() < 0.3:
+            # voices need not be filled with rests, as long as one voice fills every measure
+            keep = rng.choice(sorted(set((n.voice or 1) for n in p.notes_tied)) or [1])       # one voice stays complete: it carries the measure lengths
+            gone = [r for r in p.iter_all(score.Rest) if (r.voice or 1) != keep and rng.random() < 0.6]
+            for r in gone:
+                p.remove(r)
+            if gone:
+                feats.add("voice_with_gaps")
         if poly:
             # a voice that holds a note under a moving line is not expressible: the exporter gives such notes a free voice
             feats.add("polyphony_inside_a_voice")
@@ -327,14 +335,6 @@ def make_case(score, rng, tier):
                 for k, (a, b) in enumerate(spans):
                     p.add(score.Note(step="CDEFGAB"[k], octave=7, id="%s_s%d" % (p.id, k), voice=v, staff=1), a, b)
                 feats.add("staggered_voice")
-        if rng.random() < 0.3:
-            # voices need not be filled with rests, as long as one voice fills every measure
-            keep = rng.choice(sorted(set((n.voice or 1) for n in p.notes_tied)) or [1])       # one voice stays complete: it carries the measure lengths
-            gone = [r for r in p.iter_all(score.Rest) if (r.voice or 1) != keep and rng.random() < 0.6]
-            for r in gone:
-                p.remove(r)
-            if gone:
-                feats.add("voice_with_gaps")
         if rng.random() < 0.25 and add_triplet_measure(score, rng, p):
             feats.add("tuplet")
         feats |= decorate(score, rng, p, level)
